@@ -9,7 +9,6 @@ import (
 
 	"github.com/karagenc/socket.io-go/internal/sync"
 
-	"github.com/fatih/structs"
 	"github.com/karagenc/socket.io-go/adapter"
 	eioparser "github.com/karagenc/socket.io-go/engine.io/parser"
 	"github.com/karagenc/socket.io-go/parser"
@@ -313,14 +312,23 @@ func (s *clientSocket) sendConnectPacket(authData any) {
 		lastOffset, _ := s.lastOffset()
 		m["offset"] = lastOffset
 
+		// The authentication data (a struct or a map, or a pointer to one) is sent along with
+		// the identity of the session: its members, as JSON names them, join the same object.
 		if authData != nil {
-			a := structs.New(&authData)
-			a.TagName = "json"
-			for k, v := range a.Map() {
+			var members map[string]any
+			data, err := json.Marshal(authData)
+			if err == nil {
+				err = json.Unmarshal(data, &members)
+			}
+			if err != nil {
+				s.onError(wrapInternalError(fmt.Errorf("auth data: %w", err)))
+			}
+			for k, v := range members {
 				m[k] = v
 			}
 		}
-		v = m
+		// Encode takes a pointer.
+		v = &m
 	} else if authData != nil {
 		v = &authData
 	}
